@@ -101,7 +101,10 @@ def evaluate(vars_: dict):
                 text = sp[1]
                 for rf in sorted(set(sp[2]), key=len, reverse=True):
                     text = re.sub(r"\$" + re.escape(rf) + r"(?!\w)", f"({env[rf]})", text)
-                out = ("val", eval(text, {"__builtins__": {}}))  # noqa: S307 - harness-generated integer arithmetic
+                try:
+                    out = ("val", eval(text, {"__builtins__": {}}))  # noqa: S307 - harness-generated integer arithmetic
+                except ArithmeticError:
+                    out = None          # an expression that cannot be evaluated keeps its text
         if nm not in stack:
             memo[nm] = out
         return out
@@ -334,6 +337,7 @@ def run(ctx: Ctx) -> None:
               {"p": ("ref", "nope"), "q": ("expr", "$p + 1", ["p"])},
               {"l": ("lit", [1, 2, 3]), "m": ("ref", "l"), "n": ("ref", "m"), "d": ("idx", "n", 1), "e": ("idx", "m", 2)},
               {"a": ("lit", -3), "b": ("expr", "$a**2", ["a"]), "c": ("expr", "2 - $a", ["a"]), "d": ("expr", "-$a", ["a"])}]
+    corpus.append({"z": ("lit", 0), "d": ("expr", "1 / $z", ["z"]), "e": ("expr", "$z + 1", ["z"]), "f": ("expr", "7 % $z", ["z"])})
     # long dependency chains: every link needs the previous one (one pass of the evaluator per link)
     for n in (30, 101, 130):
         chain = {"t000": ("lit", 1), "dt": ("lit", 2)}
